@@ -380,7 +380,17 @@ def coverage(prog, fn, st, target, shape):
                             break
                         if isinstance(p.target, ast.Tuple) and any(isinstance(e, ast.Name) and e.id == i.id for e in p.target.elts) \
                                 and isinstance(p.iter, ast.Call) and isinstance(p.iter.func, ast.Name) and p.iter.func.id == 'enumerate':
-                            found = ('enumerate', short(p.iter)) if (child is stmt and _unconditional_in(p, child)) else ('cond-loop', short(p.iter))
+                            # enumerate(X) with the dimension written as len(X): exactly len(X) iterations
+                            it0 = p.iter.args[0] if p.iter.args else None
+                            dd = d
+                            if isinstance(dd, ast.Name) and _local_alias(fn, dd.id) is not None:
+                                dd = _local_alias(fn, dd.id)
+                            is_len = isinstance(dd, ast.Call) and isinstance(dd.func, ast.Name) and dd.func.id == 'len' and dd.args \
+                                and it0 is not None and _same_expr(dd.args[0], it0)
+                            if is_len and child is stmt and _unconditional_in(p, child):
+                                found = ('loop', short(p.iter))
+                            else:
+                                found = ('enumerate', short(p.iter)) if (child is stmt and _unconditional_in(p, child)) else ('cond-loop', short(p.iter))
                             break
                         if isinstance(p.target, ast.Name) and p.target.id == i.id:
                             found = ('other-loop', short(p.iter))
